@@ -235,17 +235,17 @@ theorem execSim (P : Prog) : ∀ n, ExecSim P n := by
       -- the state in which the body runs
       have hany : (s0.stack.any fun fr => decide (fr.id = id)) = false := by
         rw [any_id_eq_contains]; exact hnc
-      have hm1' : Mid P { s0 with stack := ⟨id, [], 1⟩ :: s0.stack, runs := bump s0.runs id.fn, log := id :: s0.log } := by
+      have hm1' : Mid P { s0 with stack := ⟨id, [], 1⟩ :: s0.stack, runs := bump s0.runs id.fn, log := id :: s0.log, events := (false, id) :: s0.events } := by
         intro n' r' hn'; exact hm0 n' r' hn'
       obtain ⟨s2, he2, hm2, hs2⟩ := evalE_sim ih (fnOf P id.fn).body id.arg
-        { s0 with stack := ⟨id, [], 1⟩ :: s0.stack, runs := bump s0.runs id.fn, log := id :: s0.log } v hm1' hv0
+        { s0 with stack := ⟨id, [], 1⟩ :: s0.stack, runs := bump s0.runs id.fn, log := id :: s0.log, events := (false, id) :: s0.events } v hm1' hv0
       have hids : stackIds s2 = id :: stackIds s0 := hs2.ids
       cases hstk : s2.stack with
       | nil => simp [stackIds, hstk] at hids
       | cons fr rest =>
         have hrest : rest.map (·.id) = stackIds s0 := by
           simp only [stackIds, hstk, List.map_cons, List.cons.injEq] at hids; exact hids.2
-        have hinv : invoke (callVia (exec n P)) P s0 id = ({ s2 with stack := rest }, .ok (v, fr)) := by
+        have hinv : invoke (callVia (exec n P)) P s0 id = ({ s2 with stack := rest, events := (true, id) :: s2.events }, .ok (v, fr)) := by
           unfold invoke
           simp only [hany, Bool.false_eq_true, if_false, he2, hstk]
         simp only [hinv]
